@@ -5,6 +5,7 @@ import (
 	"go/token"
 	"go/types"
 	"sort"
+	"strings"
 
 	"golang.org/x/tools/go/ssa"
 
@@ -152,11 +153,20 @@ func runC10(c *Ctx) {
 	})
 
 	c.rule("C10.X1", "at most one answer per request: notifyRequests removes the outpoint from requests/initialTxns/outpoints before delivering; deliver is a non-blocking send on a channel allocated with capacity 1; Result keeps the first result under r.mu", func() {
-		fn := c.fn("(*neutrino.batchSpendReporter).notifyRequests")
 		bsr := func(f string) *types.Var { return c.field("neutrino", "batchSpendReporter", f) }
-		for _, f := range []string{"requests", "initialTxns", "outpoints"} {
-			c.mustPrecede(fn, mapDelete(loadsField(bsr(f))), "delete(b."+f+", *outpoint)", callTo(deliver()), "request.deliver", 1)
+		// notifyRequests, or the reporter methods it was folded into
+		nDel := 0
+		for _, fn := range c.P.Funcs {
+			if fn.Parent() != nil || !strings.HasPrefix(c.nm(fn), "(*neutrino.batchSpendReporter).") || len(find(fn, callTo(deliver()))) == 0 {
+				continue
+			}
+			nDel++
+			c.R.Funcs[c.nm(fn)] = true
+			for _, f := range []string{"requests", "initialTxns", "outpoints"} {
+				c.mustPrecede(fn, mapDelete(loadsField(bsr(f))), "delete(b."+f+", *outpoint)", callTo(deliver()), "request.deliver", 1)
+			}
 		}
+		c.verdict(nDel >= 1, "neutrino.batchSpendReporter | methods that answer requests", "", fmt.Sprintf("%d method(s) call deliver", nDel), "no method of batchSpendReporter delivers results any more")
 		d := c.fn("(*neutrino.GetUtxoRequest).deliver")
 		rc := c.field("neutrino", "GetUtxoRequest", "resultChan")
 		okNB := false
@@ -231,8 +241,11 @@ func runC10(c *Ctx) {
 		// FailRemaining / NotifyUnspentAndUnfound answer every pending request
 		for _, name := range []string{"FailRemaining", "NotifyUnspentAndUnfound"} {
 			f := c.fn("(*neutrino.batchSpendReporter)." + name)
-			n := len(find(f, callTo(rep("notifyRequests"))))
-			c.verdict(n >= 1, c.nm(f)+" | notifies every entry of b.requests", c.P.Pos(f.Pos()), "ranges over b.requests calling notifyRequests", name+" no longer calls notifyRequests")
+			n := len(find(f, callTo(deliver())))
+			if nr := c.P.Method("neutrino", "batchSpendReporter", "notifyRequests"); nr != nil {
+				n += len(find(f, callTo(nr)))
+			}
+			c.verdict(n >= 1, c.nm(f)+" | notifies every entry of b.requests", c.P.Pos(f.Pos()), "ranges over b.requests answering the requests", name+" no longer answers the requests (notifyRequests / deliver)")
 		}
 	})
 
@@ -307,7 +320,76 @@ func runC10(c *Ctx) {
 		sr := func(f string) *types.Var { return c.field("neutrino", "SpendReport", f) }
 		// ---- notifySpends
 		fn := c.fn("(*neutrino.batchSpendReporter).notifySpends")
-		notify := find(fn, callTo(rep("notifyRequests")))
+		// the answer: a notifyRequests call or, folded, the deletes + deliver loop
+		type answer struct {
+			in           ssa.Instruction
+			report, reqs ssa.Value
+			keyed        func(ssa.Value) bool
+			txin         ssa.Value
+		}
+		var notify []answer
+		prevOut := c.field(pWire, "TxIn", "PreviousOutPoint")
+		if nr := c.P.Method("neutrino", "batchSpendReporter", "notifyRequests"); nr != nil && len(find(fn, callTo(nr))) > 0 {
+			for _, x := range find(fn, callTo(nr)) {
+				a := argsOf(x)
+				an := answer{in: x, report: a[2], reqs: a[1]}
+				opCell, _ := a[0].(*ssa.Alloc)
+				an.keyed = func(v ssa.Value) bool {
+					ld, ok := v.(*ssa.UnOp)
+					return ok && opCell != nil && ld.X == ssa.Value(opCell)
+				}
+				if opCell != nil {
+					for _, st := range ir.StoresTo(opCell) {
+						if ld, ok := st.Val.(*ssa.UnOp); ok {
+							if fa, ok := ld.X.(*ssa.FieldAddr); ok && ir.FieldOfAddr(fa) == prevOut {
+								an.txin = fa.X
+							}
+						}
+					}
+				}
+				notify = append(notify, an)
+			}
+		} else {
+			reqsF := c.field("neutrino", "batchSpendReporter", "requests")
+			var key ssa.Value
+			for _, d := range find(fn, mapDelete(loadsField(reqsF))) {
+				key = ir.CallOf(d).Args[1]
+			}
+			for _, x := range find(fn, callTo(deliver())) {
+				a := argsOf(x)
+				an := answer{in: x, report: a[0]}
+				ir.DerivesFrom(ir.CallOf(x).Args[0], func(v ssa.Value) bool {
+					if ia, ok := v.(*ssa.IndexAddr); ok && an.reqs == nil {
+						an.reqs = ir.Strip(ia.X)
+					}
+					return false
+				})
+				k := key
+				an.keyed = func(v ssa.Value) bool { return k != nil && (v == k || ir.Strip(v) == ir.Strip(k)) }
+				if k != nil {
+					if ld, ok := ir.Strip(k).(*ssa.UnOp); ok {
+						if fa, ok := ld.X.(*ssa.FieldAddr); ok && ir.FieldOfAddr(fa) == prevOut {
+							an.txin = fa.X
+						}
+						// a local copy of the outpoint
+						if al, ok := ld.X.(*ssa.Alloc); ok {
+							for _, st := range ir.StoresTo(al) {
+								if l2, ok := st.Val.(*ssa.UnOp); ok {
+									if fa, ok := l2.X.(*ssa.FieldAddr); ok && ir.FieldOfAddr(fa) == prevOut {
+										an.txin = fa.X
+										an.keyed = func(v ssa.Value) bool {
+											l3, ok := v.(*ssa.UnOp)
+											return ok && l3.X == ssa.Value(al)
+										}
+									}
+								}
+							}
+						}
+					}
+				}
+				notify = append(notify, an)
+			}
+		}
 		var bad, sites []string
 		check := func(cond bool, msg string) {
 			if !cond {
@@ -327,29 +409,25 @@ func runC10(c *Ctx) {
 			})
 			return v
 		}
-		check(len(notify) == 1, fmt.Sprintf("%d notifyRequests call(s) in notifySpends, 1 tabled", len(notify)))
-		for _, x := range notify {
+		check(len(notify) == 1, fmt.Sprintf("%d answer site(s) (notifyRequests / deliver) in notifySpends, 1 tabled", len(notify)))
+		for _, an := range notify {
+			x := an.in
 			sites = append(sites, c.at(x))
-			a := argsOf(x)
-			rpt, ok := a[2].(*ssa.Alloc)
+			rpt, ok := an.report.(*ssa.Alloc)
 			if !ok {
-				check(false, "the report handed to notifyRequests at "+c.at(x)+" is not a freshly built SpendReport")
+				check(false, "the report answered at "+c.at(x)+" is not a freshly built SpendReport")
 				continue
 			}
-			h := ir.LoopHeaderOf(x.Block())
-			check(h != nil && ir.LoopHeaderOf(rpt.Block()) == h, "the SpendReport answered at "+c.at(x)+" is allocated outside the input loop: every outpoint spent by one transaction shares (and overwrites) one report")
-			// the outpoint cell: copy of the input's PreviousOutPoint
-			opCell, _ := a[0].(*ssa.Alloc)
-			var txin ssa.Value // the *wire.TxIn the outpoint was read from
-			if opCell != nil {
-				for _, st := range ir.StoresTo(opCell) {
-					if ld, ok := st.Val.(*ssa.UnOp); ok {
-						if fa, ok := ld.X.(*ssa.FieldAddr); ok && ir.FieldOfAddr(fa) == c.field(pWire, "TxIn", "PreviousOutPoint") {
-							txin = fa.X
-						}
-					}
-				}
+			// the loop over the transaction's inputs (the deliver loop itself is nested in it when written out)
+			txin := an.txin
+			// the loop over the transaction's inputs: where the matching input is
+			// taken from tx.TxIn (the deliver loop is nested in it when written out)
+			var hIn *ssa.BasicBlock
+			if ti, ok := txin.(ssa.Instruction); ok {
+				hIn = ir.LoopHeaderOf(ti.Block())
 			}
+			check(hIn != nil && ir.LoopHeaderOf(rpt.Block()) == hIn && ir.LoopBlocks(hIn)[x.Block()], "the SpendReport answered at "+c.at(x)+" is allocated outside the input loop: every outpoint spent by one transaction shares (and overwrites) one report")
+			keyed := an.keyed
 			check(txin != nil, "the outpoint answered at "+c.at(x)+" is not a copy of an input's PreviousOutPoint")
 			// tx.TxIn[idx]
 			var idx, tx ssa.Value
@@ -371,11 +449,7 @@ func runC10(c *Ctx) {
 				check(storedIn(rpt, sr("SpendingTxHeight")) == ssa.Value(fn.Params[2]), "SpendReport.SpendingTxHeight is not the height of the processed block")
 			}
 			// requests looked up, and the report filed, under that outpoint
-			keyed := func(v ssa.Value) bool {
-				ld, ok := v.(*ssa.UnOp)
-				return ok && opCell != nil && ld.X == ssa.Value(opCell)
-			}
-			lk, _ := a[1].(*ssa.Extract)
+			lk, _ := an.reqs.(*ssa.Extract)
 			okLk := false
 			if lk != nil {
 				if l, ok := lk.Tuple.(*ssa.Lookup); ok {
@@ -568,18 +642,40 @@ func runC10(c *Ctx) {
 			}
 		}
 		c.verdict(nApp >= 1, c.nm(an)+" | the new script joins filterEntries at once", c.P.Pos(an.Pos()), "append(b.filterEntries, entry)", "a new request's script is not added to the current watch list")
-		// notifyRequests: same outpoint for all three deletes
-		nr := c.fn("(*neutrino.batchSpendReporter).notifyRequests")
-		dels := find(nr, func(in ssa.Instruction) bool { return isBuiltin("delete")(in) })
-		okDel := 0
-		for _, x := range dels {
-			a := ir.CallOf(x).Args
-			if ld, ok := a[1].(*ssa.UnOp); ok && ld.X == ssa.Value(nr.Params[1]) {
-				okDel++
+		// the answering code (notifyRequests, or the methods it was folded
+		// into): the three deletes in front of a delivery use one key, and one
+		// of them is on the cache
+		nAns := 0
+		for _, nr := range c.P.Funcs {
+			if nr.Parent() != nil || !strings.HasPrefix(c.nm(nr), "(*neutrino.batchSpendReporter).") || len(find(nr, callTo(deliver()))) == 0 {
+				continue
 			}
+			nAns++
+			dels := find(nr, func(in ssa.Instruction) bool { return isBuiltin("delete")(in) })
+			okDel := 0
+			var key ssa.Value
+			same := func(x, y ssa.Value) bool {
+				x, y = ir.Strip(x), ir.Strip(y)
+				if x == y {
+					return true
+				}
+				lx, ok1 := x.(*ssa.UnOp)
+				ly, ok2 := y.(*ssa.UnOp)
+				return ok1 && ok2 && lx.X == ly.X
+			}
+			for _, x := range dels {
+				a := ir.CallOf(x).Args
+				if key == nil {
+					key = a[1]
+				}
+				if same(a[1], key) {
+					okDel++
+				}
+			}
+			delCache := len(find(nr, mapDelete(loadsField(cache))))
+			c.verdict(delCache == 1 && okDel == len(dels) && len(dels) >= 3, c.nm(nr)+" | the answered outpoint (and only it) leaves requests, initialTxns and the cache", c.P.Pos(nr.Pos()), "three deletes keyed by the answered outpoint", fmt.Sprintf("%d delete(s), %d keyed by the answered outpoint, %d on the cache", len(dels), okDel, delCache))
 		}
-		delCache := len(find(nr, mapDelete(loadsField(cache))))
-		c.verdict(delCache == 1 && okDel == len(dels) && len(dels) >= 3, c.nm(nr)+" | the answered outpoint (and only it) leaves requests, initialTxns and the cache", c.P.Pos(nr.Pos()), "three deletes keyed by *outpoint", fmt.Sprintf("%d delete(s), %d keyed by the answered outpoint, %d on the cache", len(dels), okDel, delCache))
+		c.verdict(nAns >= 1, "neutrino.batchSpendReporter | answering code found", "", fmt.Sprintf("%d method(s)", nAns), "no method of batchSpendReporter answers requests")
 		// ProcessBlock: rebuild from every cache entry
 		pb := c.fn("(*neutrino.batchSpendReporter).ProcessBlock")
 		okRebuild := false
